@@ -47,6 +47,11 @@ type Side struct {
 
 	// Producer is the side's own revocation producer (from the seed).
 	Producer *shachain.RevocationProducer
+
+	// Stale is a second handle of the channel record, fetched when the
+	// channel was created and never refreshed: what lnd's funding manager
+	// holds (completeChan) while the link works on its own handle.
+	Stale *chanstate.OpenChannel
 }
 
 // UpdKind is the kind of a channel update.
@@ -434,6 +439,16 @@ func New(t TB, p Params) *Sim {
 		if err := s.Sides[1-i].Chan.InitNextRevocation(k); err != nil {
 			t.Fatalf("InitNextRevocation: %v", err)
 		}
+	}
+	for i := 0; i < 2; i++ {
+		st, err := s.Sides[i].FetchState()
+		if err != nil {
+			t.Fatalf("fetch stale handle: %v", err)
+		}
+		s.Sides[i].Stale = st
+	}
+	if p.ZeroConf {
+		s.label("zero_conf_channel")
 	}
 
 	return s
